@@ -57,7 +57,7 @@ void h_rle_init(void) {
   uint8_t *buf = malloc(size);
   __CPROVER_assume(buf != NULL);
   carquet_rle_decoder_init(dec, buf, size, nondet_int());
-  CQV_CANARY("decoder_init returns");
+  if (dec->status == CARQUET_OK) CQV_CANARY("decoder_init accepts the width"); else CQV_CANARY("decoder_init rejects the width");
 }
 
 void h_rle_has_next(void) {
@@ -115,6 +115,7 @@ void h_rle_decode_levels(void) {
   __CPROVER_assume(out != NULL);
   int64_t r = carquet_rle_decode_levels(buf, size, nondet_int(), out, count);
   CQV_CANARY("decode_levels returns");
+  if (r < 0) CQV_CANARY("decode_levels rejects the width");
   if (r > 8) CQV_CANARY("decode_levels returns more than 8 values");
 }
 
